@@ -671,6 +671,8 @@ main (int argc, char **argv)
 		return cmd_grid (argc - 2, argv + 2) ;
 	if (!strcmp (argv [1], "c03consts"))
 		return cmd_c03consts () ;
+	if (!strcmp (argv [1], "sitesconsts"))
+		return cmd_sitesconsts () ;
 	if (!strcmp (argv [1], "routes"))
 		return cmd_routes () ;
 	if (!strcmp (argv [1], "ieee"))
